@@ -10,7 +10,7 @@
    This file contains only the property theorems. *)
 From Coq Require Import List ZArith.
 From Verif Require Import Base.KV Locks.Interleave Locks.LockLog Locks.EtcdLock Locks.EtcdLockProofs
-  Locks.RedisLock Locks.RedisLockProofs.
+  Locks.RedisLock Locks.RedisLockProofs Locks.MultiLock Locks.MultiLockProofs.
 
 Theorem C19_etcd_notify : forall s i c,
   reachable step sys_init s ->
@@ -71,3 +71,12 @@ Theorem C19_redis_partial : forall s i j a b,
   within_lease s a = false \/ within_lease s b = false.
 Proof. exact redis_overlap_only_after_ttl. Qed.
 Print Assumptions C19_redis_partial.
+
+(* the multi-lock helpers of cluster/calcium/lock.go (withWorkloadsLocked,
+   withNodesLocked) chain the lock contexts: the critical section runs under the
+   last of the chain, which is cancelled as soon as the own context of ANY of the
+   locks is cancelled with the session-done error (C19_etcd_notify for that key) *)
+Theorem C19_chain_cancelled : forall own,
+  Forall own_state own -> In CtxSessionDone own -> is_done (last (chain false own) CtxLive) = true.
+Proof. exact chain_cancelled. Qed.
+Print Assumptions C19_chain_cancelled.
